@@ -108,7 +108,7 @@ func ruleS2(c *Ctx, id string) {
 		fromAlloc := false
 		if n == V.Inode && fl == "Inum" && base != nil {
 			for v := range bwdSources(base) {
-				if cl, ok := v.(*ssa.Call); ok && cl.Call.StaticCallee() == getAlloc {
+				if cl, ok := v.(*ssa.Call); ok && staticCallee(cl) == getAlloc {
 					fromAlloc = true
 				}
 			}
@@ -203,7 +203,7 @@ func ruleS2(c *Ctx, id string) {
 				// the number added is the number looked up for From.Name
 				for v := range bwdSources(callCommon(in).Args[2]) {
 					if ex, ok := v.(*ssa.Extract); ok && ex.Index == 0 {
-						if lc, ok := ex.Tuple.(*ssa.Call); ok && lc.Call.StaticCallee() == lookup {
+						if lc, ok := ex.Tuple.(*ssa.Call); ok && staticCallee(lc) == lookup {
 							if _, p3 := paramFieldPath(lc.Call.Args[2]); p3 == "From.Name" {
 								return true
 							}
@@ -414,7 +414,7 @@ func ruleS4(c *Ctx, id string) {
 				return false, false
 			}
 			ec, ok := cd.X.(*ssa.Call)
-			if ok && ec.Call.StaticCallee() == isEmpty && obj(sub.resolve(stripConv(ec.Call.Args[0]))) {
+			if ok && staticCallee(ec) == isEmpty && obj(sub.resolve(stripConv(ec.Call.Args[0]))) {
 				return true, true
 			}
 			return false, false
@@ -734,7 +734,7 @@ func helperClassEdge(fn *ssa.Function, sub Subst, ok func(h *ssa.Function, hs Su
 		if call == nil || br.True == br.False {
 			continue
 		}
-		h := call.Call.StaticCallee()
+		h := staticCallee(call)
 		if h == nil || !IsRepoFunc(h) || h.Blocks == nil || h == fn || !(isPrivateHelper(h) || h.Parent() != nil) {
 			continue
 		}
@@ -812,7 +812,7 @@ func unlinkOf(c *Ctx, in ssa.Instruction) ssa.Value {
 	if !ok {
 		return nil
 	}
-	cal := call.Call.StaticCallee()
+	cal := staticCallee(call)
 	if cal == nil {
 		return nil
 	}
@@ -843,13 +843,13 @@ func unlinkParam(c *Ctx, f *ssa.Function, d int) int {
 			pv := ssa.Value(p)
 			is := func(in ssa.Instruction) bool {
 				cl, ok := in.(*ssa.Call)
-				if !ok || cl.Call.StaticCallee() == nil {
+				if !ok || staticCallee(cl) == nil {
 					return false
 				}
-				if cl.Call.StaticCallee() == c.V.DecLink {
+				if staticCallee(cl) == c.V.DecLink {
 					return stripConv(recvOf(cl)) == pv
 				}
-				if j := unlinkParam(c, cl.Call.StaticCallee(), d+1); j >= 0 && j < len(cl.Call.Args) {
+				if j := unlinkParam(c, staticCallee(cl), d+1); j >= 0 && j < len(cl.Call.Args) {
 					return stripConv(cl.Call.Args[j]) == pv
 				}
 				return false
